@@ -183,6 +183,14 @@ def _repeated_identityfile(rb):
     return False
 
 
+def _none_after_command(rb):
+    for _, _, settings in rb:
+        vals = [v for k, v in settings if k == "proxycommand"]
+        if len(vals) >= 2 and vals[0] is not None and None in vals[1:]:
+            return True
+    return False
+
+
 def _dedupe(lst):
     out = []
     for x in lst:
@@ -210,6 +218,10 @@ def classify(rb, host, exp, got, opts_raw_hostname):
         if key == "identityfile" and isinstance(g, list) and _repeated_identityfile(rb) \
                 and R.matches_expected(e, _dedupe(g)):
             out.append(("identityfile-duplicates:value-repeated-within-one-block",
+                        {"expected": e, "got": g}))
+            continue
+        if key == "proxycommand" and g is None and _none_after_command(rb):
+            out.append(("first-value-wins:ProxyCommand-none-replaces-earlier-ProxyCommand-of-same-block",
                         {"expected": e, "got": g}))
             continue
         if opts_raw_hostname is not None and "%h" in opts_raw_hostname:
@@ -344,26 +356,33 @@ def run_item(item, acc):
                     "hostnames": HOSTNAMES})
 
 
-def build_items(tier):
-    items = []
+B1Q = [b for b in B1 if b[0] not in (("identityfile", "~/k1"), ("proxycommand", "nc %h %p"))]
+
+
+def space(tier):
     if tier == "quick":
-        hdr1, depth, g = HOST_RED + MATCHES, 2, G1
-        hs = HS_QUICK
-    else:
-        hdr1, depth, g = HOST_FULL + MATCHES, 2, G1
-        hs = HS_FULL
-    blk1 = blocks_of(hdr1, B1)
-    items.append(("S1-0", g))
-    for glob in g:
+        return {"hdr1": HOST_RED + MATCHES, "body1": B1Q, "globals": G1, "hs": [H("*"), MATCHES[7]],
+                "x3": None}
+    return {"hdr1": HOST_FULL + MATCHES, "body1": B1, "globals": G1, "hs": HS_FULL,
+            "x3": (HOST_RED + MATCHES, B1Q, G1[:1])}
+
+
+def build_items(tier):
+    sp = space(tier)
+    items = []
+    blk1 = blocks_of(sp["hdr1"], sp["body1"])
+    items.append(("S1-0", sp["globals"]))
+    for glob in sp["globals"]:
         for first in blk1:
-            items.append(("S1", glob, first, blk1, depth))
-    if tier != "quick":
-        red = blocks_of(HOST_RED + MATCHES, B1)
-        for glob in g[:2]:
+            items.append(("S1", glob, first, blk1, 2))
+    if sp["x3"]:
+        hd, bd, gl = sp["x3"]
+        red = blocks_of(hd, bd)
+        for glob in gl:
             for first in red:
                 for second in red:
                     items.append(("S1x3", glob, first, second, red))
-    blk2 = blocks_of(hs, B2)
+    blk2 = blocks_of(sp["hs"], B2)
     for first in blk2:
         items.append(("S2", first, blk2))
     for part in enum.chunks(B2, 8):
@@ -397,17 +416,22 @@ def main(tier):
          "Match exec, canonicalisation, Include outside the space"])
     items = build_items(tier)
     # group small items so that one work unit is >= ~50 ms
-    ck.merge(core.pmap(items, run_any))
+    ck.merge(core.pmap(items, run_any, init=core.unpin))   # single-threaded work: no CPU pinning
+    sp = space(tier)
     ck.extra["bound"] = {
         "tier": tier,
         "hostnames": HOSTNAMES,
-        "S1": "global in %d options x sequences of <=2 blocks, header in %d (Host 1-2 patterns of %r + %d Match "
-              "headers) x body in 7 one-line settings%s" % (
-                  len(G1), len((HOST_RED if tier == "quick" else HOST_FULL) + MATCHES), PATTERNS, len(MATCHES),
-                  "" if tier == "quick" else "; plus all 3-block sequences over the reduced 39 headers x 7 bodies "
-                                                "with global in 2 options"),
-        "S2": "sequences of <=2 blocks, header in %d x body = every ordered 1-2 settings out of %d"
-              % (len(HS_QUICK if tier == "quick" else HS_FULL), len(SETTINGS)),
+        "patterns": PATTERNS,
+        "match_headers": [render_header(m).strip() for m in MATCHES],
+        "settings": [render_setting(x).strip() for x in SETTINGS],
+        "S1": "global section in %d options x every sequence of <=2 blocks; header in %d (Host with 1-2 patterns + "
+              "%d Match headers) x body in %d one-line settings" % (
+                  len(sp["globals"]), len(sp["hdr1"]), len(MATCHES), len(sp["body1"])),
+        "S1x3": None if not sp["x3"] else "every sequence of exactly 3 blocks; header in %d x body in %d, global "
+                                          "section in %d option(s)" % (len(sp["x3"][0]), len(sp["x3"][1]),
+                                                                       len(sp["x3"][2])),
+        "S2": "every sequence of <=2 blocks, header in %r x body = every ordered 1-2 settings out of %d"
+              % ([render_header(h).strip() for h in sp["hs"]], len(SETTINGS)),
         "S3": "5 key-case/separator/quoting/CRLF styles x 182 bodies, as Host * body and as global section",
         "work_items": len(items),
     }
